@@ -1237,6 +1237,12 @@ impl ObjectFile {
             // If we have both symbol tables:
             (Some(mut a_sym), Some(b_sym)) => {
                 let SymbolTable { label_map, rel_map, debug_symbols: b_debug_symbols } = b_sym;
+                // When both files carry sources, B's source is appended after A's source and a newline,
+                // so the source indices of B's labels have to be shifted by that amount.
+                let b_src_offset = match (&a_sym.debug_symbols, &b_debug_symbols) {
+                    (Some(ads), Some(_)) => ads.src_info.src.len() + 1,
+                    _ => 0
+                };
                 a_sym.debug_symbols = match (a_sym.debug_symbols, b_debug_symbols) {
                     (Some(ads), Some(bds)) => Some(DebugSymbols::link(ads, bds)?),
                     (m_ads, b_ads) => m_ads.or(b_ads)
@@ -1247,6 +1253,10 @@ impl ObjectFile {
 
                 // For every label in symbol table B:
                 for (label, b_sym_data) in label_map {
+                    let b_sym_data = SymbolData {
+                        src_start: b_sym_data.src_start.saturating_add(b_src_offset),
+                        ..b_sym_data
+                    };
                     match a_sym.label_map.entry(label) {
                         Entry::Occupied(mut e) => {
                             let &a_sym_data = e.get();
